@@ -80,6 +80,8 @@ def visit_calls(f):
 
 
 def run(m, rep, tier):
+    from .. import canaries
+    canaries.run(m, rep, ('handoff',))
     roles = Roles(m)
     mod = roles.unit
     if mod is None:
